@@ -1,5 +1,4 @@
 SPECIFICATION Spec
 CONSTANT MaxMut = 4
-VIEW View
-INVARIANT Bounded Emit
+INVARIANT Bounded
 CHECK_DEADLOCK FALSE
